@@ -17,6 +17,42 @@ PROPS = {
         trusted=["comparators in the harness and in the driver are the same four functions (lt, gt, by-key x/10)"],
         assumptions=["comparator is a strict weak order", "int elements stand for every comparable T"],
     ),
+    "C04": dict(
+        level_text="Proof: the inductive tree model of bstree.go preserves the BST invariant and refines the ordered association list (Get = lookup, Upsert = insert, Delete = erase incl. two-child deletion via the successor, Traverse = the list) for every history and every strict total comparator; Size is characterised exactly (present keys minus failed deletes: known finding). Tie: exhaustive small-scope + seeded correspondence; Lean ordered-map monitor on the implementation's answers.",
+        level_note="Lean kernel + standard axioms; comparator assumed strict total order; tree nodes unaliased; Traverse's goroutine/channel plumbing modelled as the in-order list.",
+        groups=["C04"], quick_shards=16,
+        observers=("size", "traverse", "get"),
+        rule="all sequences of <= 5 (quick) / 6 (thorough) Upsert/Delete over keys 0..4, observers Size/Traverse/Get 0..4 after every step, both comparators; seeded runs over key ranges 8/30/200 with sorted/reversed/random insertion; non-trivial = a present key with both a smaller and a larger present key was deleted (two-child candidate) and >= 3 keys were held; distinct = distinct op sequence",
+        exhaustive_part="all mutation sequences up to the tier's bound over a 10-symbol alphabet, both comparators",
+        assumptions=["comparator is a strict total order", "int keys/values stand for the generic K, V"],
+    ),
+    "C07": dict(
+        level_text="Proof: the LRU model (key set + recency list, kept separate as in the code) keeps its invariant (distinct keys, map = list keys, length <= cap) and refines the recency-ordered finite map for every history; eviction/oldest/youngest clauses are corollaries. Tie: exhaustive small-scope + seeded correspondence; Lean monitor on the implementation's answers.",
+        level_note="Lean kernel + standard axioms; pointer surgery of the eviction list abstracted to list operations (modelled, checked by correspondence).",
+        groups=["C07"], quick_shards=16,
+        observers=("count", "getyoungest"),
+        rule="capacities 1..4, all sequences of <= 4 (quick) / 5 (thorough) ops from {Add k, Get k, Remove k (k=0..3), GetOldest, RemoveOldest, RemoveYoungest} with Count/GetYoungest after each and a final RemoveOldest drain; NewLRU(n<=0); seeded runs with capacity <= 12; non-trivial = an eviction happened (or a rejected capacity); distinct = distinct op sequence",
+        exhaustive_part="all op sequences up to the tier's bound over a 15-symbol alphabet for capacities 1..4",
+        assumptions=["int keys/values stand for the generic K, V"],
+    ),
+    "C09": dict(
+        level_text="Proof: the inductive ternary-tree model of trie.go refines the finite map from non-empty byte strings (Get/Contains exact, Size = distinct keys, Keys/StartsWith in byte-lexicographic order, LongestPrefix) for every Put history. Tie: exhaustive small-scope + seeded correspondence incl. non-ASCII bytes; Lean monitor on the implementation's answers.",
+        level_note="Lean kernel + standard axioms; result queue modelled as a list (queue.Queue is C05's business).",
+        groups=["C09"], quick_shards=16,
+        observers=("get", "contains", "size", "keys", "startswith", "longestprefix"),
+        rule="all Put sequences of <= 3 keys of length 1..2 (quick) / 1..3 (thorough) over {a, b, 0xC3} (all orders, re-puts), then every query of length 0..3/4 over the alphabet for Get/Contains/StartsWith/LongestPrefix plus Size/Keys; seeded random key sets with shared prefixes, nested keys and bytes >= 0x80; non-trivial = some stored key is a proper prefix of another and >= 3 keys stored; distinct = distinct op sequence",
+        exhaustive_part="all key sequences up to the bound with all queries over the alphabet",
+        assumptions=["int values stand for the generic V"],
+    ),
+    "C10": dict(
+        level_text="Proof: the height-indexed B-tree model of btree.go keeps its invariant (sorted entries, separators, node fill, uniform leaf depth) and refines the ordered association list with tombstones for every Put/Remove history; 2^height <= max(1,N) follows from the fill invariant. Tie: exhaustive small-scope + seeded correspondence with multi-level splits; Lean monitor on the implementation's answers (Height judged against the bound only).",
+        level_note="Lean kernel + standard axioms; maxChildren = 4 read from the source by the translator.",
+        groups=["C10"], quick_shards=16,
+        observers=("size", "isempty", "height", "traverse", "get"),
+        rule="all sequences of <= 4 (quick) / 6 (thorough) Put/Remove over keys 0..5 with all observers after each step; seeded runs of up to 300 keys sorted/reversed/random followed by mixed Put/Remove/Get; non-trivial = height >= 1 reached and some key removed; distinct = distinct op sequence",
+        exhaustive_part="all mutation sequences up to the tier's bound over a 12-symbol alphabet",
+        assumptions=["int keys/values stand for the generic K, V"],
+    ),
     "C05": dict(
         level_text="Proof: every history of the slice-backed and of the linked queue model yields exactly the abstract FIFO's answers (refinement, by induction over histories); the models are tied to the code by an exhaustive small-scope + seeded correspondence run, and the Lean FIFO monitor judges the implementation's own answers.",
         level_note="Lean kernel + propext/Quot.sound/Classical.choice; models hand-written (list.DList at pointer level); tie = differential run on generated histories.",
